@@ -115,7 +115,8 @@ def gen_large(recipe, rng):
     with LmnnProbe() as pr:
       est.fit(X, y)
   events = [{'ev': 'Data', 'algo': 'LMNN', 'X': dym(X), 'y': [int(v) for v in y],
-             'targets': [[int(t) + 1 for t in row] for row in pr.targets], 'k': 1, 'reg': dy(reg)}]
+             'targets': [[int(t) + 1 for t in row] for row in pr.targets], 'k': 1, 'reg': dy(reg),
+             'learn_rate': dy(est.learn_rate), 'rate_up': dy(1.01)}]
   for (Lc, v, g, act) in pr.evals[:recipe.get('evals', 1)]:
     events.append({'ev': 'Eval', 'L': dym(Lc), 'value': dy(v), 'grad': [], 'active': act, 'light': True})
   return {'est': 'LMNN', 'init': 'identity', 'mode': 'large_n', 'shape_kind': 'large_n', 'events': events}
@@ -161,7 +162,8 @@ def gen_trace(recipe):
         est.fit(X, y)
       L0 = _initialize_components(kk, X, y, init_arg, random_state=seed)
       events.append({'ev': 'Data', 'algo': algo, 'X': dym(X), 'y': [int(v) for v in np.unique(y, return_inverse=True)[1]],
-                     'targets': [[int(t) + 1 for t in row] for row in pr.targets], 'k': nn, 'reg': dy(reg)})
+                     'targets': [[int(t) + 1 for t in row] for row in pr.targets], 'k': nn, 'reg': dy(reg),
+                     'learn_rate': dy(est.learn_rate), 'rate_up': dy(1.01)})
       for (Lc, v, g, act) in pr.evals[:10]:
         events.append({'ev': 'Eval', 'L': dym(Lc), 'value': dy(v), 'grad': dym(g), 'active': act, 'light': False})
       truncated = len(pr.evals) > 10
@@ -181,7 +183,7 @@ def gen_trace(recipe):
         est.fit(X, yy)
       L0 = _initialize_components(kk, X, yy, init_arg, random_state=seed, has_classes=(algo == 'NCA'))
       events.append({'ev': 'Data', 'algo': algo, 'X': dym(X), 'y': ([int(v) for v in y] if algo == 'NCA' else dyv(yreal)),
-                     'targets': [], 'k': 0, 'reg': dy(0.0)})
+                     'targets': [], 'k': 0, 'reg': dy(0.0), 'learn_rate': dy(0.0), 'rate_up': dy(1.0)})
       sign = -1.0 if algo == 'NCA' else 1.0
       for (x, v, g) in pr.evals[:5]:
         Lc = x.reshape(-1, d)
